@@ -237,6 +237,12 @@ def derive(r, c, kind):
 
 
 def run_c07_stage(run, cases, limit=None):
+    """violations registered by this stage carry "stage": "T05" in their replays (common.Run.in_stage)"""
+    with run.in_stage("T05"):
+        return _run_c07_stage(run, cases, limit)
+
+
+def _run_c07_stage(run, cases, limit=None):
     """extra stage of the C07 check: every evaluated case of that check which loaded (stage done), lies in the exact
     domain and has distinct price keys is rendered as register, balance and balance-group text under a report scale
     drawn per case; the three texts are compared with the model chain and judged by the end-to-end oracle"""
@@ -384,6 +390,12 @@ def corpus_cases():
 
 
 def run_text_stage(run, n=None):
+    """violations registered by this stage carry "stage": "T05" in their replays (common.Run.in_stage)"""
+    with run.in_stage("T05"):
+        return _run_text_stage(run, n)
+
+
+def _run_text_stage(run, n=None):
     if n is None:
         n = 150 if run.tier == "quick" else 2400
     r = run.rng
